@@ -26,7 +26,12 @@ class StateView:
         self.I = ctx.I
 
     def __getitem__(self, name):
-        return self.ctx.lookup(name)
+        v = self.ctx.lookup(name)
+        if isinstance(v, SymSeq) and not all(z3.is_const(c) for c in v.cols):
+            # give merged / updated arrays a name so that they can be used in E-matching patterns
+            v = self.I.name_seq(v, name)
+            self.ctx.setvar_existing(name, v)
+        return v
 
     def field(self, ref, name):
         return self.I.state.heap[ref.oid][name]
@@ -157,7 +162,7 @@ class ExecCtx:
         if z3.is_true(c) or z3.is_false(c):
             self.exec_block(s.body if z3.is_true(c) else s.orelse)
             return
-        if is_simple_block(s.body) and is_simple_block(s.orelse):
+        if getattr(self.I, 'allow_merge', True) and is_simple_block(s.body) and is_simple_block(s.orelse):
             if self.try_merge_if(c, s):
                 return
         if self.I.branch(c):
@@ -638,6 +643,7 @@ class ExecCtx:
                 kwargs.update(d)
             else:
                 kwargs[kw.arg] = self.eval(kw.value)
+        self.current_call = e
         return I.lib.call(self, f, args, kwargs, e)
 
 
